@@ -242,6 +242,41 @@ def rule_c(ctx):
                 for (ce, inf, b) in facts_at(m, c):
                     if ce[0] == "call" and (ce[3] or "").endswith("::is_empty") and truth(inf) is False:
                         nonempty = True
+            if not (okk and clear and dominated and nonempty) and clear:
+                # the report may be the emptiness test itself: `let any = !actions.is_empty(); if any { actions.clear() } any`
+                empt = [b_ for b_, t_ in m.calls() if (t_.get("def") or "").endswith("::is_empty")]
+                alt_ok = bool(rv)
+                for e in rv:
+                    if e[0] == "const" and e[1] == 0:
+                        continue
+                    neg = e[0] == "unop" and e[1] == "Not" and deep_strip(e[2])[0] == "call" and deep_strip(e[2])[1] in empt
+                    if not neg:
+                        alt_ok = False; continue
+                    eb = deep_strip(e[2])[1]
+                    # the clear runs exactly when that test said "not empty"
+                    guarded = all(any(ce[0] == "call" and ce[1] == eb and truth(inf) is False for (ce, inf, _b) in facts_at(m, c)) or
+                                  any(ce[0] == "unop" and ce[1] == "Not" and deep_strip(ce[2])[0] == "call" and deep_strip(ce[2])[1] == eb and truth(inf) is True
+                                      for (ce, inf, _b) in facts_at(m, c)) for c in clear)
+                    always = True
+                    from ..conds import switch_edges
+                    for (b2, tgt, lab, exprs, t2) in switch_edges(m):
+                        for x in exprs:
+                            x = deep_strip(x)
+                            direct = x[0] == "call" and x[1] == eb
+                            negd = x[0] == "unop" and x[1] == "Not" and deep_strip(x[2])[0] == "call" and deep_strip(x[2])[1] == eb
+                            if not (direct or negd):
+                                continue
+                            if not (set(clear) & cfg.reachable(m, b2, unwind=False)):
+                                continue        # a later test of the same value (`if replace { publish }`): the clear is behind us
+                            val = int(lab[3:]) if lab.startswith("sw:") else None
+                            is_true = (val is not None and val != 0) or (val is None and [v for v, _ in t2["vals"]] == [0])
+                            not_empty_edge = (direct and not is_true) or (negd and is_true)
+                            if not_empty_edge and (cfg.reachable(m, tgt, avoid=set(clear), unwind=False) & set(m.exits())) and tgt not in clear:
+                                always = False
+                    if not (guarded and always):
+                        alt_ok = False
+                if alt_ok:
+                    okk = dominated = nonempty = True
             ctx.check(okk and clear and dominated and nonempty, rid, "unregister_signal:returns-cleared", "true is produced only after clearing a slot that was not empty", m.span,
                       {"returned": [show(e) for e in rv], "clear_calls": len(clear), "true_after_clear": bool(dominated), "guarded_by_not_empty": nonempty})
 
